@@ -261,7 +261,22 @@ func mutateOnce(r *core.Rand, t *tree.Tree, o editOpt) string {
 		}
 		p := e.Path
 		removePath(t, p)
-		return "delete " + p
+		d := "delete " + p
+		if r.P(1, 2) {
+			// with it, the siblings whose names merely start with its name
+			// (they follow it, or its subtree, in walk order)
+			var also []string
+			for _, x := range t.Entries {
+				if tree.Parent(x.Path) == tree.Parent(p) && x.Path != p && strings.HasPrefix(x.Path, p) {
+					also = append(also, x.Path)
+				}
+			}
+			for _, a := range also {
+				removePath(t, a)
+				d += " +lookalike " + a
+			}
+		}
+		return d
 	case "add":
 		d := core.Pick(r, dirsOf(t))
 		p := freshName(r, t, d)
